@@ -91,6 +91,7 @@ def run(prog, R):
     if s2s:
         ps, _ = paths(prog, s2s.npath)
         got = defaultdict(set)
+        silent_none = defaultdict(int)
         for p in ps:
             if "__diverged__" in p.env:
                 continue
@@ -99,9 +100,17 @@ def run(prog, R):
             names = [c[1] for c in ctor_calls(r, [])]
             s_ = show_full(r)
             got[arm].add(s_)
+            if s_ == "Option::None" and not errors_on(p):
+                silent_none[arm] += 1
         for arm, w in sorted(want_stmt.items()):
-            ok = arm in got and all(w in s_ for s_ in got[arm] if s_ != "Option::None")
-            R.ob("C06.1-statement-kind-map", arm, ok, s2s.at, f"{arm} => graph construct containing {w}")
+            some = [s_ for s_ in got.get(arm, ()) if s_ != "Option::None"]
+            ok = bool(some) and all(w in s_ for s_ in some)
+            R.ob("C06.1-statement-kind-map", arm, ok, s2s.at, f"{arm} => graph construct containing {w} ({len(some)} distinct results)")
+        # a source statement never disappears from the graph without a diagnostic
+        SILENT_OK = json.load(open(os.path.join(VERIF, "spec", "asg_roles.json"))).get("silently_dropped_arms", {})
+        for arm, n_ in sorted(silent_none.items(), key=lambda kv: str(kv[0])):
+            R.ob("C06.1-no-silent-drop", str(arm), str(arm) in SILENT_OK, s2s.at,
+                 f"{n_} path(s) of the {arm} arm return None without inserting a diagnostic" + (f" (reviewed: {SILENT_OK[str(arm)]})" if str(arm) in SILENT_OK else ": the statement vanishes from the graph silently"))
         R.floor("statement arms with a return", len(got), 25)
     # ---- C06.2 role provenance
     roles = json.load(open(os.path.join(VERIF, "spec", "asg_roles.json")))["rows"]
@@ -215,6 +224,14 @@ def run(prog, R):
             rows.add((tuple(emp), "bare" if bare else ("annotated" if wrapped else "other:" + arg[:60])))
         ok = rows == {((True,), "bare"), ((False,), "annotated")}
         R.ob("C06.4-annotations", "insert_stmt(bare) iff annotations_is_empty, else insert_stmt(AnnotatedStmt::new(stmt, take_annotations()))", ok, b.at, f"{sorted(rows)}")
+    R.premises(prog, "C06.5-include-premise", ["C18:C18.2-", "C18:C18.5-"], "included files are expanded in place: the n-th include statement is paired with the n-th parsed file (lock-step of the pre-pass and the analyser, C18.2)")
+    # who consumes pending annotations: only the top-level statement loop.  A consumer inside a nested statement list
+    # would hand an annotation that is pending when the enclosing statement starts (i.e. written in front of it) to
+    # a statement inside it.
+    cons = sorted(k for k, b_ in prog.bodies.items() for _, t in b_.calls() if (b_.callee_of(t) or "").endswith(("Context::take_annotations", "asg::AnnotatedStmt::new")))
+    okc = bool(cons) and all(k == S2S + "syntax_to_semantic" for k in cons)
+    R.ob("C06.4-annotations", "pending annotations are consumed only by the top-level statement loop", okc, prog.body(cons[0]).at if cons else "",
+         f"consumers: {sorted(set(inventory.ishort(k) for k in cons))}" + ("" if okc else ": a nested consumer attaches an annotation written before the enclosing statement to a statement inside it"))
     ta = prog.body("oq3_semantics::context::Context::take_annotations")
     if ta:
         names = [(ta.callee_of(t) or "").split("::")[-1] for _, t in ta.calls()]
